@@ -266,4 +266,228 @@ theorem decode_factor (fuel : Nat) (s : S) (b : List (BitVec 8)) (sf : SubFlag) 
 
 end factor
 
+/-! ## B. parametricity of the generic decoder in the store implementation -/
+
+/-- two outcomes of the decoder agree: the same control outcome, the same bytes left, the same error, and the
+    receivers are related -/
+def ResRel {S₁ S₂ : Type} (R : S₁ → S₂ → Prop) :
+    Res (S₁ × List (BitVec 8) × GoErr) → Res (S₂ × List (BitVec 8) × GoErr) → Prop
+  | .ok p, .ok q => R p.1 q.1 ∧ p.2 = q.2
+  | .panic, .panic => True
+  | .nofuel, .nofuel => True
+  | _, _ => False
+
+theorem ResRel.of_ok {S₁ S₂ : Type} {R : S₁ → S₂ → Prop} {r₁ : Res (S₁ × List (BitVec 8) × GoErr)}
+    {r₂ : Res (S₂ × List (BitVec 8) × GoErr)} (h : ResRel R r₁ r₂) {st' : S₂} {b' : List (BitVec 8)} {e : GoErr}
+    (h2 : r₂ = .ok (st', b', e)) : ∃ x', R x' st' ∧ r₁ = .ok (x', b', e) := by
+  subst h2
+  cases r₁ with
+  | ok p =>
+    obtain ⟨x', p2⟩ := p
+    obtain ⟨hr, he⟩ := h
+    simp only at hr he
+    subst he
+    exact ⟨x', hr, rfl⟩
+  | panic => exact h.elim
+  | nofuel => exact h.elim
+
+section param
+variable {S₁ S₂ : Type} [StoreI S₁] [StoreI S₂]
+
+theorem replay_rel (R : S₁ → S₂ → Prop) (P : Call → Prop)
+    (hstep : ∀ x st c, R x st → P c → R (applyCall x c) (applyCall st c)) :
+    ∀ (l : List Call) (x : S₁) (st : S₂), R x st → (∀ c ∈ l, P c) → R (replay x l) (replay st l) := by
+  intro l
+  induction l with
+  | nil => intro x st h _; exact h
+  | cons c rest ih =>
+    intro x st h hP
+    rw [replay_cons, replay_cons]
+    exact ih _ _ (hstep x st c h (hP c (List.mem_cons_self ..))) (fun c' hc' => hP c' (List.mem_cons_of_mem _ hc'))
+
+/-- **parametricity, restricted to a class `P` of calls**: if the relation `R` is kept by every call in `P`
+    and the calls the bytes give rise to are all in `P`, the two runs agree — any fuel, any input -/
+theorem decode_param_on (R : S₁ → S₂ → Prop) (P : Call → Prop)
+    (hstep : ∀ x st c, R x st → P c → R (applyCall x c) (applyCall st c))
+    (fuel : Nat) (x : S₁) (st : S₂) (b : List (BitVec 8)) (sf : SubFlag) (h : R x st)
+    (hP : ∀ l b' e, decodeCalls fuel b sf = .ok (l, b', e) → ∀ c ∈ l.calls, P c) :
+    ResRel R (DecodeAndMergeWith fuel x b sf) (DecodeAndMergeWith fuel st b sf) := by
+  rw [decode_factor fuel x, decode_factor fuel st]
+  cases hc : decodeCalls fuel b sf with
+  | panic => trivial
+  | nofuel => trivial
+  | ok p =>
+    obtain ⟨l, b', e⟩ := p
+    exact ⟨replay_rel R P hstep l.calls x st h (hP l b' e hc), rfl⟩
+
+/-- **parametricity**: a relation kept by `AddWithCount` (every index, every float) and `Add` (every index) is
+    kept by the decoder, with the same bytes left and the same error — any fuel, any input -/
+theorem decode_param (R : S₁ → S₂ → Prop)
+    (hA : ∀ x st, R x st → ∀ i c, R (StoreI.AddWithCount x i c) (StoreI.AddWithCount st i c))
+    (hAdd : ∀ x st, R x st → ∀ i, R (StoreI.Add x i) (StoreI.Add st i))
+    (fuel : Nat) (x : S₁) (st : S₂) (b : List (BitVec 8)) (sf : SubFlag) (h : R x st) :
+    ResRel R (DecodeAndMergeWith fuel x b sf) (DecodeAndMergeWith fuel st b sf) :=
+  decode_param_on R (fun _ => True)
+    (fun x st c h _ => by
+      obtain ⟨i, oc⟩ := c
+      cases oc with
+      | some c => exact hA x st h i c
+      | none => exact hAdd x st h i)
+    fuel x st b sf h (fun _ _ _ _ _ _ => trivial)
+
+end param
+
+/-! ## C. against the model's `Sketch.decodeStore`, for any implementation related to the model's stores -/
+
+section model
+open DDS.GenStoreDecode DDS.GenEncoding DDS.Sketch DDS.Codec
+variable {S₁ : Type} [StoreI S₁]
+
+/-- an undefined layout, for EVERY implementation: refused, nothing read, receiver untouched -/
+theorem decode_unknown (s : S₁) (sub : Nat) (hsub : sub < 64) (hk : ¬ KnownSub sub) (b : List (BitVec 8))
+    (fuel : Nat) :
+    DecodeAndMergeWith fuel s b (subflag sub) = .ok (s, b, GoErr.named "unknown bin encoding") := by
+  unfold KnownSub at hk
+  have h1 : sub ≠ Consts.binEncodingIndexDeltasAndCounts := fun h => hk (Or.inl h)
+  have h2 : sub ≠ Consts.binEncodingIndexDeltas := fun h => hk (Or.inr (Or.inl h))
+  have h3 : sub ≠ Consts.binEncodingContiguousCounts := fun h => hk (Or.inr (Or.inr h))
+  obtain ⟨e1, e2, e3⟩ := subflag_beq sub hsub
+  simp only [DecodeAndMergeWith, e1, e2, e3, h1, h2, h3, decide_false, Bool.false_eq_true, if_false]
+
+/-- success of the model ⟹ the implementation returns a receiver related to the model's result, the model's
+    remaining bytes and a nil error (fuel `len(b) + 9`; `NoWrap`: no index leaves the int64 range, see
+    `GenStoreDecode.wrap_counterexample`) -/
+theorem decode_model_ok (R : S₁ → Store → Prop) (P : Call → Prop)
+    (hstep : ∀ x st c, R x st → P c → R (applyCall x c) (applyCall st c))
+    (x : S₁) (st st' : Store) (h : R x st) (sub : Nat) (b : List (BitVec 8)) (rest : Bytes) (fuel : Nat)
+    (hf : b.length + 9 ≤ fuel) (hw : NoWrap sub (nb b))
+    (hP : ∀ l b' e, decodeCalls fuel b (subflag sub) = .ok (l, b', e) → ∀ c ∈ l.calls, P c)
+    (hm : decodeStore st sub (nb b) = some (.ok (st', rest))) :
+    ∃ x', R x' st' ∧ DecodeAndMergeWith fuel x b (subflag sub) = .ok (x', bn rest, GoErr.nil) :=
+  (decode_param_on R P hstep fuel x st b (subflag sub) h hP).of_ok
+    (DecodeAndMergeWith_ok st st' sub b rest fuel hf hw hm)
+
+/-- refusal of the model ⟹ the implementation returns normally with the error of the same class: `io.EOF`
+    (truncated input; the receiver has absorbed the bins read before the cut) or "unknown bin encoding"
+    (receiver and input untouched).  No hypothesis on indexes. -/
+theorem decode_model_error (R : S₁ → Store → Prop) (P : Call → Prop)
+    (hstep : ∀ x st c, R x st → P c → R (applyCall x c) (applyCall st c))
+    (x : S₁) (st : Store) (h : R x st) (sub : Nat) (hsub : sub < 64) (b : List (BitVec 8)) (e : SkErr)
+    (fuel : Nat) (hf : b.length + 9 ≤ fuel)
+    (hP : ∀ l b' e, decodeCalls fuel b (subflag sub) = .ok (l, b', e) → ∀ c ∈ l.calls, P c)
+    (hm : decodeStore st sub (nb b) = some (.error e)) :
+    (KnownSub sub ∧ e = .eof ∧ ∃ x' b', DecodeAndMergeWith fuel x b (subflag sub) = .ok (x', b', GoErr.eof)) ∨
+    (¬ KnownSub sub ∧ e = .unknownBinEncoding ∧
+      DecodeAndMergeWith fuel x b (subflag sub) = .ok (x, b, GoErr.named "unknown bin encoding")) := by
+  rcases DecodeAndMergeWith_error st sub hsub b e fuel hf hm with ⟨hk, he, s', b', hr⟩ | ⟨hk, he, _⟩
+  · obtain ⟨x', _, hx⟩ := (decode_param_on R P hstep fuel x st b (subflag sub) h hP).of_ok hr
+    exact Or.inl ⟨hk, he, x', b', hx⟩
+  · exact Or.inr ⟨hk, he, decode_unknown x sub hsub hk b fuel⟩
+
+end model
+
+/-! ## D. `DenseStore.DecodeAndMergeWith` -/
+
+section dense
+open DDS.GenStoreDecode DDS.GenEncoding DDS.Sketch DDS.Codec DDS.GenDense DDS.GenDenseSketch
+open DDS.GenPagSketch (okOr okOr_ok)
+
+/-- the three decode wrappers add nothing to the generic decoder -/
+theorem bind_ok_triple {α β γ : Type} (r : Res (α × β × γ)) :
+    (Res.bind r fun (p : α × β × γ) => match p with | (s, b, t) => Res.ok (s, b, t)) = r := by
+  cases r with
+  | ok p => obtain ⟨s, b, t⟩ := p; rfl
+  | panic => rfl
+  | nofuel => rfl
+
+theorem DenseStore_wrapper_eq (I : StoreI GS) (IL : StoreI GLow) (IH : StoreI GHigh) (fuel : Nat) (s : GS)
+    (b : List (BitVec 8)) (sf : SubFlag) :
+    @Gen.DenseDecode.DenseStore.DecodeAndMergeWith I IL IH fuel s b sf
+      = @DecodeAndMergeWith GS I fuel s b sf :=
+  bind_ok_triple _
+
+/-- what the theorems need of the `StoreI` instance handed to the wrapper: its `AddWithCount` / `Add` run the
+    regenerated `DenseStore.AddWithCount` / `Add` with the fuel `extendFuel` of the state (a panicking call or a
+    non-finite float leaves the receiver as it was — the conventions of `GenDenseSketch.gdStoreI`) -/
+structure DenseAdds (I : StoreI GS) : Prop where
+  addWithCount : ∀ g i c, I.AddWithCount g i c = (gAddWithCount ⟨g⟩ i c).g
+  add : ∀ g i, I.Add g i = (gAdd ⟨g⟩ i).g
+
+/-- `GenDenseSketch.gdStoreI` carried from the wrapper type `GDS` to the regenerated structure itself -/
+@[reducible] def denseI : StoreI GS where
+  Add g i := (gAdd ⟨g⟩ i).g
+  AddWithCount g i c := (gAddWithCount ⟨g⟩ i c).g
+  Copy g := (gCopy ⟨g⟩).g
+  Clear g := (gClear ⟨g⟩).g
+  IsEmpty g := gIsEmpty ⟨g⟩
+  MaxIndex g := gMaxIndex ⟨g⟩
+  MinIndex g := gMinIndex ⟨g⟩
+  TotalCount g := gTotalCount ⟨g⟩
+  KeyAtRank g r := gKeyAtRank ⟨g⟩ r
+  MergeWith g o := (gMergeWith ⟨g⟩ ⟨o⟩).g
+  Reweight g w := ((gReweight ⟨g⟩ w).1.g, (gReweight ⟨g⟩ w).2)
+  Encode g b t := ((gEncode ⟨g⟩ b t).1.g, (gEncode ⟨g⟩ b t).2)
+  ForEachList g := gForEachList ⟨g⟩
+  DecodeAndMergeWith g b sf := ((gDecode ⟨g⟩ b sf).1.g, (gDecode ⟨g⟩ b sf).2)
+
+theorem denseI_adds : DenseAdds denseI := ⟨fun _ _ _ => rfl, fun _ _ => rfl⟩
+
+/-- the regenerated store is the image of the plain dense model store -/
+def DRel (g : GS) (st : Store) : Prop := ∃ d : DStore, g = toGen d ∧ st = .d d ∧ d.kind = .plain
+
+theorem drel_iff (g : GS) (st : Store) : DRel g st ↔ DSim ⟨g⟩ st := Iff.rfl
+
+theorem drel_step (I : StoreI GS) (hI : DenseAdds I) (g : GS) (st : Store) (c : Call) (h : DRel g st) :
+    DRel (@applyCall GS I g c) (applyCall st c) := by
+  obtain ⟨i, oc⟩ := c
+  cases oc with
+  | some c =>
+    show DRel (I.AddWithCount g i c) _
+    rw [hI.addWithCount]
+    exact dsim_addWithCount (x := ⟨g⟩) h i c
+  | none =>
+    show DRel (I.Add g i) _
+    rw [hI.add]
+    exact dsim_add (x := ⟨g⟩) h i
+
+/-- **parametricity for the dense store**: the wrapper on the image of a plain dense model store `d` and the
+    generic decoder on the model store (`instance : StoreI Store`) agree — same outcome, same bytes, same error,
+    the receiver the image of the model's — for EVERY input, layout and fuel -/
+theorem dense_decode_sim (I : StoreI GS) (hI : DenseAdds I) (IL : StoreI GLow) (IH : StoreI GHigh)
+    (d : DStore) (hk : d.kind = .plain) (fuel : Nat) (b : List (BitVec 8)) (sf : SubFlag) :
+    ResRel DRel (@Gen.DenseDecode.DenseStore.DecodeAndMergeWith I IL IH fuel (toGen d) b sf)
+      (DecodeAndMergeWith fuel (Store.d d) b sf) := by
+  rw [DenseStore_wrapper_eq]
+  exact @decode_param_on GS Store I _ DRel (fun _ => True) (fun x st c h _ => drel_step I hI x st c h)
+    fuel (toGen d) (.d d) b sf ⟨d, rfl, rfl, hk⟩ (fun _ _ _ _ _ _ => trivial)
+
+/-- **success**: where the model decodes `(st', rest)` (no index leaving int64), the model's result is a plain
+    dense store `d'` and the wrapper returns its image, the remaining bytes, nil -/
+theorem dense_decode_ok (I : StoreI GS) (hI : DenseAdds I) (IL : StoreI GLow) (IH : StoreI GHigh)
+    (d : DStore) (hk : d.kind = .plain) (st' : Store) (sub : Nat) (b : List (BitVec 8)) (rest : Bytes)
+    (fuel : Nat) (hf : b.length + 9 ≤ fuel) (hw : NoWrap sub (nb b))
+    (hm : decodeStore (.d d) sub (nb b) = some (.ok (st', rest))) :
+    ∃ d', st' = .d d' ∧ d'.kind = .plain ∧
+      @Gen.DenseDecode.DenseStore.DecodeAndMergeWith I IL IH fuel (toGen d) b (subflag sub)
+        = .ok (toGen d', bn rest, GoErr.nil) := by
+  obtain ⟨x', ⟨d', rfl, rfl, hk'⟩, hx⟩ := (dense_decode_sim I hI IL IH d hk fuel b (subflag sub)).of_ok
+    (DecodeAndMergeWith_ok (.d d) st' sub b rest fuel hf hw hm)
+  exact ⟨d', rfl, hk', hx⟩
+
+/-- **refusal**: `io.EOF` or "unknown bin encoding" (receiver and input untouched), as the model -/
+theorem dense_decode_error (I : StoreI GS) (hI : DenseAdds I) (IL : StoreI GLow) (IH : StoreI GHigh)
+    (d : DStore) (hk : d.kind = .plain) (sub : Nat) (hsub : sub < 64) (b : List (BitVec 8)) (e : SkErr)
+    (fuel : Nat) (hf : b.length + 9 ≤ fuel) (hm : decodeStore (.d d) sub (nb b) = some (.error e)) :
+    (KnownSub sub ∧ e = .eof ∧ ∃ g' b',
+      @Gen.DenseDecode.DenseStore.DecodeAndMergeWith I IL IH fuel (toGen d) b (subflag sub)
+        = .ok (g', b', GoErr.eof)) ∨
+    (¬ KnownSub sub ∧ e = .unknownBinEncoding ∧
+      @Gen.DenseDecode.DenseStore.DecodeAndMergeWith I IL IH fuel (toGen d) b (subflag sub)
+        = .ok (toGen d, b, GoErr.named "unknown bin encoding")) := by
+  rw [DenseStore_wrapper_eq]
+  exact @decode_model_error GS I DRel (fun _ => True) (fun x st c h _ => drel_step I hI x st c h)
+    (toGen d) (.d d) ⟨d, rfl, rfl, hk⟩ sub hsub b e fuel hf (fun _ _ _ _ _ _ => trivial) hm
+
+end dense
+
 end DDS.GenDecodeWrap
